@@ -676,6 +676,25 @@ def catalog():
                               {"default": True, "labels": [], "body": {"ty": "uint", "name": "dflt", "arr": None}}]},
                           {"k": "union", "name": "u4", "swty": "color", "swvar": "disc", "arms": [
                               {"labels": ["RED"], "body": None}, {"labels": ["BLUE"], "body": {"ty": "double", "name": "a", "arr": None}}]}])
+    # one name or one declaration in several roles at once
+    spec("interactions:names-and-roles", [
+        {"k": "const", "name": "N", "val": "2"},
+        {"k": "typedef", "ty": "unsigned int", "name": "uint", "arr": None},
+        {"k": "enum", "name": "kind", "members": [["inner", "1"], ["sel", "4"], ["N2", "3"]]},
+        # the constant N is a bound, a fixed length and a case label; the typedef uint is a discriminant, a field, an array element and an optional target
+        {"k": "struct", "name": "roles", "fields": [{"ty": "opaque", "name": "N2", "arr": ["var", "N"], "opt": False}, {"ty": "uint", "name": "uint", "arr": None, "opt": False},
+                                                    {"ty": "uint", "name": "us", "arr": ["var", "N"], "opt": False}, {"ty": "uint", "name": "uf", "arr": ["fixed", "N"], "opt": False},
+                                                    {"ty": "uint", "name": "uo", "arr": None, "opt": True}, {"ty": "kind", "name": "kind", "arr": None, "opt": False},
+                                                    {"ty": "inner", "name": "inner", "arr": ["fixed", "N"], "opt": False}]},
+        {"k": "union", "name": "byconst", "swty": "uint", "swvar": "kind", "arms": [
+            {"labels": ["N"], "body": {"ty": "roles", "name": "roles", "arr": None}}, {"labels": ["inner"], "body": {"ty": "inner", "name": "inner", "arr": None}},
+            {"labels": ["N2", "7"], "body": None}, {"labels": ["sel"], "body": {"ty": "sel", "name": "sel", "arr": None}}]},
+        {"k": "union", "name": "bykind", "swty": "kind", "swvar": "kind", "arms": [
+            {"labels": ["inner"], "body": {"ty": "byconst", "name": "inner", "arr": None}}, {"labels": ["sel"], "body": "void"},
+            {"labels": ["N2"], "body": {"ty": "kind", "name": "again", "arr": None}}]},
+        {"k": "typedef", "ty": "bykind", "name": "bykinds", "arr": ["var", "N"]},
+        {"k": "struct", "name": "outer", "fields": [{"ty": "bykinds", "name": "a", "arr": None, "opt": False}, {"ty": "byconst", "name": "b", "arr": ["var", ""], "opt": False},
+                                                    {"ty": "roles", "name": "c", "arr": None, "opt": True}]}])
     # labels that look like the keyword `default` (ordinary names: enum members, constants) on void and data arms, with and without a real default
     spec("union:default-lookalikes", [
         {"k": "enum", "name": "log_level", "members": [["QUIET", "0"], ["DEFAULT", "1"], ["TRACE", "2"], ["DEBUG", "3"]]},
